@@ -621,7 +621,7 @@ def run(ctx: Ctx, aspect="C02"):
         s = Stream(ctx, "rules about 'sub modules of X' evaluated on scanned architectures (sub modules = dotted extensions)")
         scanned_rule_stream(ctx, s, ctx.size(400, 12000))
         s.finish()
-    if aspect == "C04" and not ctx.violations:
+    if not ctx.violations:
         s = Stream(ctx, "sub-scans: imports spelled relative to module_path's parent vs fully qualified (repeated directory names)")
         parent_relative(ctx, s, ctx.size(500, 12000))
         s.finish()
